@@ -68,13 +68,22 @@ DetAgg(a, grp, c) == CASE a.f = "count*" -> NumV(IF a.distinct THEN Len(Distinct
                        [] OTHER -> Err
 DetMu(q, grp, c) == [v \in {q.aggs[j].as : j \in {i \in 1..Len(q.aggs) : ~IsErr(DetAgg(q.aggs[i], grp, c))}} |->
                         DetAgg(q.aggs[CHOOSE j \in 1..Len(q.aggs) : q.aggs[j].as = v], grp, c)]
-Kept(q, grp, c) == IF Has(q, "having") THEN Holds(q.having, DetMu(q, grp, c), c) ELSE TRUE
+(* HAVING(<aggregate> op n): the aggregate is evaluated on the group itself (SELECT aliases are not visible to HAVING) *)
+Kept(q, grp, c) == IF ~Has(q, "having") THEN TRUE
+                   ELSE LET x == DetAgg(q.having.agg, grp, c) IN
+                        IF IsErr(x) THEN FALSE
+                        ELSE CASE q.having.op = ">" -> x.v > q.having.n [] q.having.op = ">=" -> x.v >= q.having.n
+                               [] q.having.op = "<" -> x.v < q.having.n [] q.having.op = "=" -> x.v = q.having.n
 
 AggVerdict(q, R, c) ==
   LET Om == EvalGroup(q.where, c, EmptyMu)
       GS == IF q.groupby = <<>> THEN {Om} ELSE (IF Om = <<>> THEN {} ELSE Groups(Om, q.groupby, c))
       KG == {g \in GS : Kept(q, g, c)}
-  IN IF Len(R) # Cardinality(KG) THEN "GroupCount"
+  IN \* explicit GROUP BY over no solutions: zero rows (no groups), or - as the W3C test agg-empty-group expects - one row
+     \* that binds none of the grouping variables
+     IF q.groupby # <<>> /\ Om = <<>>
+     THEN (IF Len(R) = 0 \/ (Len(R) = 1 /\ DOMAIN R[1] \cap KeyVars(q) = {}) THEN "ok" ELSE "GroupCount")
+     ELSE IF Len(R) # Cardinality(KG) THEN "GroupCount"
      ELSE IF q.groupby = <<>>
           THEN (IF KG = {} THEN "ok" ELSE IF AggsOK(R[1], q, Om, c) THEN "ok" ELSE "AggregateValue")
      ELSE IF \E g \in KG : Cardinality(RowForGroup(R, q, g, c)) # 1 THEN "GroupPartition"
@@ -99,7 +108,10 @@ QueryVerdict(q0, e, c) ==
   ELSE IF Has(q, "aggs") THEN
        (IF SToSet(r.vars) # SToSet(q.proj) THEN "ProjectOK" ELSE AggVerdict(q, r.rows, c))
   ELSE LET ex == EvalQuery(q, c)
-           keys == IF Has(q, "orderby") THEN q.orderby ELSE <<>>
+           \* ORDER BY happens before projection: when a key is not among the projected variables its effect is not
+           \* observable row by row, and only the multiset / slice size is judged
+           keys == IF Has(q, "orderby") /\ (\A i \in 1..Len(q.orderby) : q.orderby[i].e.e = "var" /\ q.orderby[i].e.v \in ex.vars)
+                   THEN q.orderby ELSE <<>>
            off  == IF Has(q, "offset") THEN q.offset ELSE 0
            lim  == IF Has(q, "limit") THEN q.limit ELSE 0 - 1
        IN IF q.proj # <<"*">> /\ r.vars # q.proj THEN "ProjectOK"
